@@ -712,14 +712,16 @@ Qed.
 Lemma interface_selects e local priv emb st t rs st' :
   height t <= 2 -> wf_tree t ->
   to_iface e priv emb st t = (rs, st') ->
-  Forall (fun m => exists m0, find_decl t (rm_name m) = Some m0 /\ rm_name m = m_name m0 /\
+  Forall (fun m => exists m0, find_decl t (rm_name m) = Some m0 /\ is_meth m0 = true /\
+            rm_name m = m_name m0 /\
             (wf_ty (e_self e) local (meth_ty m0) -> alias_injective (active st') ->
              denote (e_self e) local (active st') (rmeth_expr m) = Some (erase (meth_ty m0)))) rs.
 Proof.
   intros Hh Hwf H.
   destruct (to_iface_ok e local priv emb true t st rs st' H) as [_ [S N]].
   apply Forall_forall. intros m Hm. rewrite Forall_forall in S.
-  destruct (S m Hm) as [m0 [Hp [Hn Hr]]]. exists m0. split; [|split; [assumption|]].
+  destruct (S m Hm) as [m0 [Hp [Hn Hr]]]. exists m0.
+  split; [|split; [exact (picks_is_meth _ _ _ _ _ Hp)|split; [assumption|]]].
   - rewrite Hn. apply (picks_find_decl priv emb t m0 Hp Hh Hwf).
     rewrite <- Hn. unfold iface_names. rewrite <- N. apply in_map. assumption.
   - exact (proj2 (Hr st' (extends_refl st'))).
